@@ -2,6 +2,7 @@
 with the in-run monitors (C02..C08) attached.  Stubs: the service behind _flush, the clock.
 """
 import gc
+import traceback as _traceback
 import collections
 
 from . import env as simenv
@@ -99,6 +100,10 @@ class SimBatch(A.BatchBase):
             cur[self.kind] = SimBatch(self.B, self.kind, self.gen + 1)
 
     def get_priority(self):
+        if self.B.spec.get("prio_nonempty"):
+            # a user priority that looks at the first request: fine for every batch the scheduler
+            # considers for flushing (it never asks an empty batch)
+            self.items[0]
         p = self.prio
         if p is None:
             p = A.BatchBase.get_priority(self)
@@ -1440,6 +1445,7 @@ class RealBackend(object):
             except BaseException as e:
                 out = ("E", e)
             self.ev("root", ("V", repr(out[1])) if out[0] == "V" else ("E", errtok(out[1])))
+            task = val = wrapper = None  # this frame must not keep the computation's tasks alive
             self.post_run(out)
         finally:
             self.teardown()
@@ -1475,6 +1481,16 @@ class RealBackend(object):
                                   % [c.token for c in grp])
                         break
                     last = at
+            # termination: when the outermost call returns or raises, the task it waited for is
+            # computed (unless user code running inside the scheduler loop itself - a context,
+            # get_priority(), a flush hook - raised, or the runaway guard stopped the computation)
+            fl = self.spec.get("faults", {})
+            rt = self.root.task if self.root is not None else None
+            if rt is not None and not rt.is_computed() and not fl.get("ctx") and not fl.get("prio_raises") \
+                    and not fl.get("before_hook_raises") and not self.spec.get("max_stack") \
+                    and not (out[0] == "E" and isinstance(out[1], (RuntimeError, RecursionError, MemoryError, KeyboardInterrupt))):
+                self.viol("C03", "returned-uncomputed", "the outermost call ended (%s) but the task it waited for is not computed"
+                          % (errtok(out[1]) if out[0] == "E" else "value"))
         # before/after pairing (C05)
         if "C05" in self.mon:
             depth = 0
@@ -1533,6 +1549,16 @@ class RealBackend(object):
             inst.awaiting = None
             inst.syncing = None
             inst.escaped = None
+        # the frames kept alive by the traceback of an escaping exception hold the tasks of the
+        # computation: release them like user code that has finished handling the error, so that
+        # abandoned generators are finalised here and not whenever the exception object dies
+        if out[0] == "E":
+            e, seen = out[1], set()
+            while e is not None and id(e) not in seen:
+                seen.add(id(e))
+                if e.__traceback__ is not None:
+                    _traceback.clear_frames(e.__traceback__)
+                e = e.__context__ if e.__cause__ is None else e.__cause__
         self.ev("gc")
         gc.collect()
         gc.collect()
